@@ -1588,6 +1588,29 @@ func (e *CEnv) evalCall(n *ast.CallExpr) (Value, types.Type) {
 				e.fail("fresh of %T", v)
 			}
 			return Scalar{BVUge(r, e.old.HeapTop)}, boolT
+		case "funcname":
+			// funcname(f, "name"): the function value f runs the code of the function (or function
+			// literal, "outer$1") called name in this package
+			if len(n.Args) != 2 {
+				e.fail("funcname(f, \"name\")")
+			}
+			v, _ := e.eval(n.Args[0])
+			fv, ok := v.(FuncV)
+			lit, ok2 := n.Args[1].(*ast.BasicLit)
+			if !ok || !ok2 {
+				e.fail("funcname needs a function value and a string literal")
+			}
+			want := strings.Trim(lit.Value, "\"")
+			if fv.Fn != nil {
+				if relName(fv.Fn) == want {
+					return Scalar{True()}, boolT
+				}
+				return Scalar{False()}, boolT
+			}
+			if fv.Ref == nil {
+				e.fail("funcname of an unknown function value")
+			}
+			return Scalar{Eq(funcCodeOf(fv.Ref), BVInt(int64(p.eng.pathID("fn:"+want)), 32))}, boolT
 		case "isUTC":
 			// isUTC(t): the time value carries the UTC location
 			v, _ := e.eval(n.Args[0])
